@@ -353,10 +353,10 @@ impl BuiltInFunction {
                 };
 
                 {
-                    let mut v_original = v_original_shared.0.borrow_mut();
-                    let mut v_add = v_add.0.borrow_mut();
-
-                    v_original.append(v_add.as_mut());
+                    // copy the elements: the argument keeps its contents, and
+                    // `a.join(a)` must not borrow the same cell twice.
+                    let to_add: Vec<Primitive> = v_add.0.borrow().to_vec();
+                    v_original_shared.0.borrow_mut().extend(to_add);
                 }
 
                 Ok((Some(Primitive::Vector(v_original_shared.clone())), None))
